@@ -4,7 +4,7 @@ import io
 import itertools
 import os
 
-from common import hx
+from common import hx, unhx
 import implutil as U
 import incutil as I
 
@@ -83,8 +83,14 @@ def run(ctx, res):
     reqs = sorted({'/'.join(t) for n in range(1, 4) for t in itertools.product(['x', 'lib', '.', '..', '', 'foobar', 'pkg'], repeat=n)} |
                   {'..', '../foobar/x', '/etc/passwd', os.path.join(outside, 'x'), 'x', 'lib/inc', 'pkg', './x', 'x/.', 'x/..', '...', '..x', 'x..'})
     reqs = [r for r in reqs if r and '"' not in r]
+    # strings using the load path's own metacharacters `;` and `?`
+    meta = sorted({a + sep + b for a in ('x', 'lib', 'nothere', '') for sep in (';', '?', ';?', '?;', ';;')
+                   for b in (os.path.join(outside, 'x'), os.path.join(outside, 'x.lua'), os.path.join(sib, 'x'), '/etc/passwd', '..', 'x', '?', '',
+                             'lib/inc', '..x', '...', 'foobar/x')} - {''})
     if not ctx.thorough():
         reqs = rng.sample(reqs, min(len(reqs), 120)) + ['..', 'x', '../foobar/x', 'x/..', 'pkg', '...']
+        meta = rng.sample(meta, 40) + ['x;' + os.path.join(outside, 'x'), 'nothere;' + os.path.join(outside, 'x.lua'), 'x;..', '?', ';']
+    reqs += meta
     plan = [(r, rng.choice(lps)) for r in reqs]
     plan += [(r, lp) for r in ('..', 'x/..', '../foobar/x', '../secret/x', 'lib/../..', '.', 'pkg/..') for lp in lps]
     for r, lp in plan:
@@ -122,14 +128,18 @@ def run(ctx, res):
         lines.append('reqrej ' + hx(r.encode()))
         expect.append('ok 1' if status == 'err build:rejected' else 'ok 0')
         cases.append({'op': 'reqrej', 'require': r, 'impl': status})
+        # candidate expansion: the paths the real `_locate_require_file` probes, in order (it stops at the first file found)
+        from pico8.build import build as build_mod
+        if env_lp:
+            os.environ['PICO8_LUA_PATH'] = env_lp
+        with I.Recorder() as rec2:
+            try:
+                found = build_mod._locate_require_file(r, main, lua_path=lp if lp not in (None, 'ENV') else None)
+            except Exception as e:
+                found = 'err ' + U.exc_kind(e)
+        os.environ.pop('PICO8_LUA_PATH', None)
         lines.append('reqcand %s %s %s' % (I.hp(r), I.hp(root), I.hp(eff)))
-        cands = []
-        for tpl in eff.split(';'):
-            c = tpl.replace('?', r)
-            if not c.startswith(os.path.sep):
-                c = os.path.join(root, c)
-            cands.append(c)
-        expect.append('ok ' + ':'.join(I.hp(c) for c in cands))
+        expect.append(('cands', list(rec2.probed), found))
         cases.append({'op': 'reqcand', 'require': r, 'lua_path': eff})
         res.count('require:' + status.split(' ')[0])
     # ---- os.path vs the path model
@@ -169,6 +179,13 @@ def run(ctx, res):
         for c, e, g in zip(cases, expect, ctx.model.run(lines)):
             if c['op'] == 'incline':
                 ok = (e == 'err outside-root') == (g == 'err outside-root')
+            elif c['op'] == 'reqcand':
+                _, probed, found = e
+                mc = [unhx(w).decode('utf-8') for w in g[3:].split(':')] if g.startswith('ok ') and len(g) > 3 else []
+                # the implementation probes the model's candidates in order and stops at the first existing file
+                ok = (probed == mc[:len(probed)] and len(probed) >= 1 and
+                      ((found is None and len(probed) == len(mc)) or (found == probed[-1] and os.path.isfile(found))))
+                e = 'probed %r found %r' % (probed, found)
             else:
                 ok = (e == g)
             if not ok:
